@@ -201,6 +201,13 @@ func runCase(c Case, r *runlog.R) error {
 		// what the call is about (independent of the outcome)
 		ss := sites(view, st.Cfg, st.Sep)
 		nMentioned := countLeaves(ss)
+		for _, s := range ss {
+			if s.fname != "" && s.fname[0] >= 0x80 {
+				class("a mentioned setting belongs to a field whose Go name starts with an upper-case letter outside ASCII")
+				classIf(st.Fault != nil && len(st.Fault.Path) == len(s.path) && strings.Join(st.Fault.Path, "\x00") == strings.Join(s.path, "\x00"), "the injected fault is the setting of such a field")
+			}
+			classIf(len(s.fname) > 30, "a mentioned setting belongs to a field whose Go name is longer than 30 bytes")
+		}
 		nUntouched := unmentionedNonZero(view, old, st.Cfg, st.Sep)
 
 		if uerr != nil {
@@ -316,6 +323,7 @@ func runCase(c Case, r *runlog.R) error {
 	r.NonTrivialIf(nontrivial)
 	feats := map[string]bool{}
 	typeFeatures(c.T, feats)
+	nameFeatures(c.T, feats)
 	for k := range feats {
 		class("type has " + k)
 	}
